@@ -1511,6 +1511,9 @@ pub fn campaign(run: &mut Run, focus: Focus) {
     if thorough && focus != Focus::C12 {
         pool.set_timeout(60_000);
         fuzz_stage(run, focus, &pool);
+        if focus == Focus::C04 {
+            asan_stage(run);
+        }
     }
     let timeouts = run.stats.counters.get("timeouts").copied().unwrap_or(0);
     if timeouts > 0 {
@@ -1521,6 +1524,20 @@ pub fn campaign(run: &mut Run, focus: Focus) {
 }
 
 pub fn replay_bytes(focus: Focus, case: &Value) -> CheckResult {
+    if case.get("asan").and_then(|b| b.as_bool()).unwrap_or(false) {
+        // found by the AddressSanitizer build of the byte target: only that build can show it again
+        let bytes = unhex(case.get("hex").and_then(|h| h.as_str()).unwrap_or(""));
+        let dir = format!("{}/asan-replay-{}", target_dir(), std::process::id());
+        let _ = std::fs::create_dir_all(&dir);
+        let f = format!("{}/input", dir);
+        let _ = std::fs::write(&f, &bytes);
+        let out = asan_run(&format!("cargo +nightly fuzz run -s address --target-dir {}/fuzz-asan bytes_load_use {} -- -runs=1 2>&1 | tail -60", target_dir(), f));
+        let _ = std::fs::remove_dir_all(&dir);
+        return match asan_error(&out) {
+            Some(kind) => Err(Failure::new(format!("asan:{}", kind), format!("AddressSanitizer: {} while loading/using the input", kind))),
+            None => Ok(Outcome::new(true, 0)),
+        };
+    }
     let bytes = if let Some(h) = case.get("hex").and_then(|h| h.as_str()).filter(|h| !h.is_empty()) {
         unhex(h)
     } else if let Some(p) = case.get("ase_file").and_then(|p| p.as_str()) {
@@ -1554,6 +1571,95 @@ pub fn fuzz_one(data: &[u8]) {
 }
 
 // ---------------------------------------------------------------- libFuzzer stage (thorough tier, S7)
+
+fn asan_run(cmd: &str) -> String {
+    let hdir = format!("{}/harness", verif_dir());
+    match std::process::Command::new("bash").arg("-c").arg(cmd).current_dir(&hdir).env("CARGO_NET_OFFLINE", "true").env("ASAN_OPTIONS", "allocator_may_return_null=1:detect_leaks=0").output() {
+        Ok(o) => format!("{}{}", String::from_utf8_lossy(&o.stdout), String::from_utf8_lossy(&o.stderr)),
+        Err(e) => e.to_string(),
+    }
+}
+
+/// The kind of memory error AddressSanitizer reports in this log, if any. Its complaints about allocation sizes
+/// and memory limits are C12's subject, not a memory-safety error.
+fn asan_error(log: &str) -> Option<String> {
+    for l in log.lines() {
+        if let Some(i) = l.find("ERROR: AddressSanitizer: ") {
+            let kind = l[i + 25..].split_whitespace().next().unwrap_or("?").to_string();
+            if ["allocation-size-too-big", "out-of-memory", "requested", "failed"].iter().any(|x| kind.starts_with(x)) {
+                continue;
+            }
+            return Some(kind);
+        }
+    }
+    None
+}
+
+/// C04 thorough: the byte target once more, built with AddressSanitizer (the library has no `unsafe` of its own today;
+/// its dependencies have, and a change could add some). A memory error that does not panic is invisible to the worker
+/// oracle, so here the sanitizer's report is the verdict.
+pub fn asan_stage(run: &mut Run) {
+    if std::env::var("VERIF_REPO").is_ok() || std::env::var("VERIF_NO_FUZZ").is_ok() {
+        run.extra.insert("libfuzzer_asan".into(), json!("skipped (path-override or VERIF_NO_FUZZ run)"));
+        return;
+    }
+    let tdir = format!("{}/fuzz-asan", target_dir());
+    let out = asan_run(&format!("cargo +nightly fuzz build -s address --target-dir {} bytes_load_use 2>&1 | tail -3; exit ${{PIPESTATUS[0]}}", tdir));
+    if !out.contains("Finished") {
+        run.extra.insert("libfuzzer_asan".into(), json!(format!("skipped: AddressSanitizer build failed: {}", out.chars().rev().take(300).collect::<String>().chars().rev().collect::<String>())));
+        return;
+    }
+    let work = format!("{}/fuzz-work-asan-{}", target_dir(), std::process::id());
+    let (corpus, arts, logs) = (format!("{}/corpus", work), format!("{}/artifacts", work), format!("{}/logs", work));
+    for d in [&corpus, &arts, &logs] {
+        let _ = std::fs::create_dir_all(d);
+    }
+    let mut n = 0;
+    for (name, b) in golden_seeds() {
+        if b.len() <= 65536 {
+            let _ = std::fs::write(format!("{}/golden-{}", corpus, name), b);
+            n += 1;
+        }
+    }
+    for i in 0..150u64 {
+        let mut r = Rng(lane_seed(run.seed, "asan-seed", i));
+        let tape: Vec<u32> = (0..400).map(|_| r.next() as u32).collect();
+        let b = build_hostile(&tape);
+        if b.bytes.len() <= 65536 {
+            let _ = std::fs::write(format!("{}/gen-{}", corpus, i), &b.bytes);
+            n += 1;
+        }
+    }
+    let hdir = format!("{}/harness", verif_dir());
+    let _ = asan_run(&format!(
+        "cargo +nightly fuzz run -s address --target-dir {tdir} bytes_load_use {corpus} -- -runs=100000000 -seed={seed} -max_len=65536 -len_control=0 -rss_limit_mb=6000 -malloc_limit_mb=1500 -timeout=60 -max_total_time=90 -artifact_prefix={arts}/ -jobs=8 -workers=8 -print_final_stats=1 > {logs}/driver.log 2>&1; mv {hdir}/fuzz-*.log {logs}/ 2>/dev/null; true",
+        tdir = tdir, corpus = corpus, seed = (run.seed % 1_000_000) + 21, arts = arts, logs = logs, hdir = hdir
+    ));
+    let mut execs = 0u64;
+    let mut reports = 0u64;
+    if let Ok(rd) = std::fs::read_dir(&logs) {
+        for e in rd.filter_map(|e| e.ok()) {
+            if let Ok(t) = std::fs::read_to_string(e.path()) {
+                for l in t.lines() {
+                    if let Some(x) = l.strip_prefix("stat::number_of_executed_units:") {
+                        execs += x.trim().parse::<u64>().unwrap_or(0);
+                    }
+                }
+                if let Some(kind) = asan_error(&t) {
+                    reports += 1;
+                    // the unit libFuzzer wrote for this report
+                    let art = t.lines().filter_map(|l| l.split("Test unit written to ").nth(1)).last().map(|s| s.trim().to_string());
+                    let bytes = art.and_then(|a| std::fs::read(a).ok()).unwrap_or_default();
+                    let f = Failure::new(format!("asan:{}", kind), format!("AddressSanitizer reports {} while loading/using a {}-byte input", kind, bytes.len()));
+                    run.direct(|| json!({"hex": hex(&bytes), "asan": true, "ops": ["libfuzzer:bytes_load_use:address-sanitizer"]}), Err(f));
+                }
+            }
+        }
+    }
+    run.extra.insert("libfuzzer_asan".into(), json!({"target": "bytes_load_use", "sanitizer": "address", "seed_corpus": n, "executed_units": execs, "seconds": 90, "sanitizer_reports": reports}));
+    run.stats.counters.entry("libfuzzer_executed_units".into()).and_modify(|x| *x += execs).or_insert(execs);
+    let _ = std::fs::remove_dir_all(&work);
+}
 
 /// Coverage-guided campaigns on the two cargo-fuzz targets. Every artifact libFuzzer saves is
 /// re-checked by the deterministic worker oracle before anything is reported; an artifact the
